@@ -103,6 +103,7 @@ int solve(Ctx &c, Scenario &sc, const Noise *n, double alpha, std::vector<Mat> *
     run.log.clear(); errno = 0;
     int rc = vnacal_new_solve(run.vnp); err = errno; msg = run.log.text();
     if (math_cb) *math_cb = run.log.n_nonwarning() >= 1 && run.log.last()->category == VNAERR_MATH;
+    PBT_CHECK(c, rc != 0 || run.log.n_nonwarning() == 0, "C18.success_with_error_callback", "solve returned 0 but reported: %s", msg.c_str());
     if (rc == 0 && out && run.apply_supported()) {
         int ci = vnacal_add_calibration(run.vcp, "c", run.vnp); ci = vnacal_find_calibration(run.vcp, "c");
         PBT_CHECK(c, ci >= 0 && run.apply(ci, sc.dut, *out) == 0, "C18.apply_failed", "apply failed: %s", run.log.text().c_str());
